@@ -129,6 +129,10 @@ class Program:
         self._canonicalise_tests()
         self.renamed_back = []
         self.temps_inlined = []
+        self.local_signatures = None
+        if os.environ.get("VK_SNAPSHOT_LOCALS"):
+            from . import renameback as _rb
+            self.local_signatures = _rb.snapshot({name: (m.path, m.tree) for name, m in self.modules.items()})
         if not os.environ.get("VK_NO_RENAMEBACK"):
             from . import renameback
             recorded = renameback.load_recorded()
